@@ -10,7 +10,7 @@ from __future__ import annotations
 import sys
 
 from . import pp
-from .facts import AnalysisIncomplete, Facts, cfg_info
+from .facts import AnalysisIncomplete, Facts, cfg_info, liveness
 from .lin import INF, SYMTAB, Form, Infeasible, Num, tdiv, trem
 from .values import (UNINIT, UNIT, VAdt, VArray, VBool, VClosure, VFloat, VFn, VInt, VOpaque, VRef, VSlice,
                      VTuple, Val)
@@ -30,7 +30,8 @@ class NeedJoin(Exception):
 
 
 class State:
-    __slots__ = ('frames', 'objs', 'num', 'ids', 'notes', 'stack')
+    """frames are copy-on-write: a copied state shares the per-frame dicts until one side writes"""
+    __slots__ = ('frames', 'objs', 'num', 'ids', 'notes', 'stack', 'owned')
 
     def __init__(self):
         self.frames = {}
@@ -39,16 +40,26 @@ class State:
         self.ids = [0]            # shared counter (list so that forks keep allocating unique ids)
         self.notes = {}
         self.stack = ()
+        self.owned = set()
 
     def copy(self):
         s = State()
-        s.frames = {k: dict(v) for k, v in self.frames.items()}
+        s.frames = dict(self.frames)
+        self.owned = set()
+        s.owned = set()
         s.objs = dict(self.objs)
         s.num = self.num.copy()
         s.ids = self.ids
         s.notes = dict(self.notes)
         s.stack = self.stack
         return s
+
+    def wframe(self, fid):
+        """writable dict of a frame"""
+        if fid not in self.owned:
+            self.frames[fid] = dict(self.frames[fid])
+            self.owned.add(fid)
+        return self.frames[fid]
 
     def new_id(self):
         self.ids[0] += 1
@@ -83,13 +94,15 @@ class Interp:
         self.loop_mode = {}
         self.cfg_cache = {}
         self.steps = 0
-        self.step_budget = 3_000_000
+        self.steps_root = 0
+        self.step_budget = 1_500_000
         self.root = None
         self.const_cache = {}
         self.events = []       # (kind, data) contract-relevant events of the current root
         self.trace = False
         self.max_states = 0
         self.cur_site = (0, '')
+        self.merge_k = 8
 
     # ------------------------------------------------------------------ obligations
     def oblige(self, kind, fn, bb, desc, span, ok, st: State, detail=''):
@@ -131,13 +144,13 @@ class Interp:
         if t is None:
             r = self.facts.int_range(ty)
             if r is not None:
-                return self.fresh_int(st, ty, name) if ty != 'bool' else VBool(None)
+                return self.fresh_int(st, ty, name) if ty != 'bool' else self.unknown_bool()
             return VOpaque(ty)
         k = t['k']
         if k == 'int' or k == 'char':
             return self.fresh_int(st, ty, name)
         if k == 'bool':
-            return VBool(None)
+            return self.unknown_bool()
         if k == 'float':
             return VFloat(None, ('param', name))
         if k == 'tuple':
@@ -180,7 +193,7 @@ class Interp:
         if k == 'float':
             r = c['repr']
             cls = 'nan' if r == 'NaN' else ('inf' if 'inf' in r else 'fin')
-            return VFloat(frozenset((cls,)), ('const', r))
+            return VFloat(frozenset((cls,)), ('const', r), (float(r), float(r)) if cls == 'fin' else None)
         if k == 'str':
             text = c['v']
             b = text.encode('utf-8')
@@ -402,7 +415,7 @@ class Interp:
     def store(self, st: State, root, path, val: Val):
         rk = root[0]
         if rk == 'loc':
-            fr = st.frames[root[1]]
+            fr = st.wframe(root[1])
             fr[root[2]] = self.update(st, fr.get(root[2], UNINIT), path, val)
         elif rk == 'obj':
             st.objs[root[1]] = self.update(st, st.objs.get(root[1], UNINIT), path, val)
@@ -470,7 +483,7 @@ class Interp:
 
     def write_place(self, st, fid, place, val):
         if not place['p']:
-            st.frames[fid][place['l']] = val
+            st.wframe(fid)[place['l']] = val
             return
         root, path = self.resolve(st, fid, place)
         self.store(st, root, path, val)
@@ -517,6 +530,23 @@ class Interp:
                 if ra is not None and ra == rb:
                     mod, rem = m, ra
                     break
+            # common linear part P (same symbol, same coefficient) is kept: a = P + ra, b = P + rb
+            da, db = dict(a.form.terms), dict(b.form.terms)
+            common = tuple((s, k) for s, k in a.form.terms if db.get(s) == k)
+            if common and not widen:
+                P = Form(0, common)
+                ra_f, rb_f = a.form.sub(P), b.form.sub(P)
+                l1, h1 = sa.num.rng(ra_f)
+                l2, h2 = sb.num.rng(rb_f)
+                if max(h1, h2) - min(l1, l2) <= (1 << 40):
+                    r = SYMTAB.new(f"jr#{len(SYMTAB.syms)}", min(l1, l2), max(h1, h2), 'var', None, 1, 0, taint)
+                    f = P.add(Form.sym(r))
+                    try:
+                        st.num.add_fact(f.addc(-hi))
+                        st.num.add_fact(f.neg().addc(lo))
+                    except Infeasible:
+                        pass
+                    return VInt(f, a.ty)
             nv = self.fresh_int(st, a.ty, 'j', lo, hi, taint=taint, mod=mod, rem=rem)
             return nv
         if isinstance(a, VBool) and isinstance(b, VBool):
@@ -524,7 +554,9 @@ class Interp:
                 return VBool(a.val)
             if chg is not None and a.val is not None:
                 chg[0] = True
-            return VBool(None)
+            if a.val is None and a.sym is not None and b.val is None and b.sym == a.sym:
+                return a
+            return self.unknown_bool()
         if isinstance(a, VFloat) and isinstance(b, VFloat):
             if chg is not None and not (b.cls <= a.cls):
                 chg[0] = True
@@ -604,14 +636,18 @@ class Interp:
             raise AnalysisIncomplete("join of different call stacks")
         # numeric part: hull of refinements of symbols known to both
         jn = Num()
-        for s in set(a.num.lo) | set(a.num.hi) | set(b.num.lo) | set(b.num.hi):
-            lo = min(a.num.slo(s), b.num.slo(s))
-            hi = max(a.num.shi(s), b.num.shi(s))
-            info = SYMTAB.syms[s]
-            if lo > info.lo:
-                jn.lo[s] = lo
-            if hi < info.hi:
-                jn.hi[s] = hi
+        alo, ahi, blo, bhi = a.num.lo, a.num.hi, b.num.lo, b.num.hi
+        syms = SYMTAB.syms
+        for s, v in alo.items():
+            w = blo.get(s)
+            if w is None:
+                continue
+            jn.lo[s] = v if v <= w else w
+        for s, v in ahi.items():
+            w = bhi.get(s)
+            if w is None:
+                continue
+            jn.hi[s] = v if v >= w else w
         for s, c in a.num.cong.items():
             if b.num.cong.get(s) == c:
                 jn.cong[s] = c
@@ -624,10 +660,13 @@ class Interp:
                 if both:
                     jn.neq[s] = both
         jn.divs = a.num.divs | b.num.divs
+        jn.nez = [f for f in a.num.nez if f in b.num.nez]
         j.num = jn
         for fid in a.frames:
             fa, fb = a.frames[fid], b.frames[fid]
-            fj = j.frames[fid]
+            if fa is fb:
+                continue
+            fj = j.wframe(fid)
             for l in set(fa) | set(fb):
                 va, vb = fa.get(l, UNINIT), fb.get(l, UNINIT)
                 if va is vb:
@@ -660,6 +699,16 @@ class Interp:
                 return self.assume(st, pred[1], not truth)
             if k == 'const':
                 return [st] if pred[1] == truth else []
+            if k == 'bsym':
+                lo, hi = st.num.slo(pred[1]), st.num.shi(pred[1])
+                want = 1 if truth else 0
+                if lo == hi:
+                    return [st] if lo == want else []
+                if truth:
+                    st.num.set_lo(pred[1], 1)
+                else:
+                    st.num.set_hi(pred[1], 0)
+                return self.assume(st, pred[2], truth) if pred[2] is not None else [st]
             if k == 'and':
                 if truth:
                     out = []
@@ -712,6 +761,8 @@ class Interp:
                             n.add_fact(f.addc(1))
                         elif lo == 0:
                             n.add_fact(f.neg().addc(1))
+                        elif lo < 0 < hi:
+                            n.note_nonzero(f)
                 return [st]
             if k == 'fcls':
                 # float classification predicate: value v is (not) in class c
@@ -729,6 +780,11 @@ class Interp:
         k = pred[0]
         if k == 'const':
             return pred[1]
+        if k == 'bsym':
+            lo, hi = st.num.slo(pred[1]), st.num.shi(pred[1])
+            if lo == hi:
+                return lo == 1
+            return self.decide(st, pred[2], deep) if pred[2] is not None else None
         if k == 'not':
             r = self.decide(st, pred[1], deep)
             return None if r is None else (not r)
@@ -763,6 +819,8 @@ class Interp:
                 if lo > 0 or hi < 0:
                     return False
                 f = a.sub(b)
+                if st.num.known_nonzero(f):
+                    return False
                 if len(f.terms) == 1 and abs(f.terms[0][1]) == 1:
                     s, kk = f.terms[0]
                     if (-f.c * kk) in st.num.neq.get(s, ()):
@@ -774,12 +832,20 @@ class Interp:
         return None
 
     def mkbool(self, st, pred) -> VBool:
-        return VBool(self.decide(st, pred), pred)
+        d = self.decide(st, pred)
+        if d is not None:
+            return VBool(d, pred)
+        return VBool(None, pred, SYMTAB.new(f"b#{len(SYMTAB.syms)}", 0, 1, 'bool'))
+
+    def unknown_bool(self, pred=None) -> VBool:
+        return VBool(None, pred, SYMTAB.new(f"b#{len(SYMTAB.syms)}", 0, 1, 'bool'))
 
     def bool_pred(self, v: Val):
         if isinstance(v, VBool):
             if v.val is not None:
                 return ('const', v.val)
+            if v.sym is not None:
+                return ('bsym', v.sym, v.pred)
             return v.pred
         return None
 
@@ -787,11 +853,16 @@ class Interp:
     def operand(self, st: State, fid, o) -> Val:
         k = o['o']
         if k == 'copy' or k == 'move':
-            return self.read_place(st, fid, o['p'])
+            v = self.read_place(st, fid, o['p'])
+            if isinstance(v, VBool) and v.val is None and v.sym is not None:
+                lo, hi = st.num.slo(v.sym), st.num.shi(v.sym)
+                if lo == hi:
+                    return VBool(lo == 1)
+            return v
         if k == 'const':
             return self.const_operand(st, o)
         if k == 'runtime_checks':
-            return VBool(None)
+            return self.unknown_bool()
         raise AnalysisIncomplete(f"operand {k}")
 
     def int_binop(self, st: State, op, a: VInt, b: VInt, ty):
@@ -894,7 +965,8 @@ class Interp:
                 if isinstance(a, VInt):
                     return [(st, self.wrap_or_keep(st, a.form.neg(), a.ty))]
                 if isinstance(a, VFloat):
-                    return [(st, VFloat(a.cls, ('neg', a.expr)))]
+                    r = (-a.rng[1], -a.rng[0]) if a.rng is not None else None
+                    return [(st, VFloat(a.cls, ('neg', a.expr), r))]
             if op == 'PtrMetadata':
                 if isinstance(a, VSlice):
                     return [(st, VInt(a.len, 'usize'))]
@@ -907,6 +979,15 @@ class Interp:
                 return [(st, self.fresh_int(st, 'usize', 'meta', 0, (1 << 63) - 1))]
             raise AnalysisIncomplete(f"unop {op} on {a!r}")
         if k == 'cast':
+            if rv['kind'] == 'IntToInt':
+                a = self.operand(st, fid, rv['a'])
+                if isinstance(a, VBool) and a.val is None:
+                    out = []
+                    p = self.bool_pred(a)
+                    for truth in (False, True):
+                        for s2 in self.assume(st.copy(), p, truth):
+                            out.append((s2, self.cint(1 if truth else 0, rv['to'])))
+                    return out
             return [(st, self.cast(st, fid, rv))]
         if k == 'ref' or k == 'rawptr':
             root, path = self.resolve(st, fid, rv['p'])
@@ -1008,13 +1089,13 @@ class Interp:
                     return VBool(False)
                 if a.val is True and b.val is True:
                     return VBool(True)
-                return self.mkbool(st, ('and', pa, pb)) if pa and pb else VBool(None)
+                return self.mkbool(st, ('and', pa, pb)) if pa and pb else self.unknown_bool()
             if op == 'BitOr':
                 if a.val is True or b.val is True:
                     return VBool(True)
                 if a.val is False and b.val is False:
                     return VBool(False)
-                return self.mkbool(st, ('or', pa, pb)) if pa and pb else VBool(None)
+                return self.mkbool(st, ('or', pa, pb)) if pa and pb else self.unknown_bool()
             if op in ('Eq', 'Ne'):
                 if a.val is not None and b.val is not None:
                     return VBool((a.val == b.val) == (op == 'Eq'))
@@ -1024,15 +1105,15 @@ class Interp:
                 if a.val is not None and pb:
                     p = pb if (a.val == (op == 'Eq')) else ('not', pb)
                     return self.mkbool(st, p)
-                return VBool(None)
+                return self.unknown_bool()
             if op == 'BitXor':
-                return VBool(None)
+                return self.unknown_bool()
         if isinstance(a, VFloat) or isinstance(b, VFloat):
             return self.models.float_binop(self, st, op, a, b)
         if isinstance(a, VAdt) and isinstance(b, VAdt) and op in ('Eq', 'Ne'):
-            return VBool(None)
+            return self.unknown_bool()
         if op in ('Eq', 'Ne', 'Lt', 'Le', 'Gt', 'Ge'):
-            return VBool(None)
+            return self.unknown_bool()
         if isinstance(a, (VOpaque,)) or isinstance(b, (VOpaque,)):
             return self.top(st, ty, 'opq') if op not in ('Offset',) else VOpaque(None, 'ptr')
         raise AnalysisIncomplete(f"binop {op} on {a!r}, {b!r}")
@@ -1064,11 +1145,16 @@ class Interp:
         if kind == 'IntToFloat':
             if isinstance(a, VInt):
                 self.spec.on_cast(self, st, rv, a, to)
-                return VFloat(frozenset(('fin',)), ('i2f', a.form, a.ty))
+                lo, hi = st.num.rng(a.form)
+                return VFloat(frozenset(('fin',)), ('i2f', a.form, a.ty), self.models.int_to_float_rng(lo, hi))
             return VFloat(frozenset(('fin',)), None)
         if kind == 'FloatToInt':
             ex = a.expr if isinstance(a, VFloat) else None
-            v = self.fresh_int(st, to, 'f2i')
+            lo = hi = None
+            if isinstance(a, VFloat) and a.cls == frozenset(('fin',)) and a.rng is not None:
+                import math
+                lo, hi = math.trunc(a.rng[0]), math.trunc(a.rng[1])     # `as` truncates toward zero (monotone)
+            v = self.fresh_int(st, to, 'f2i', lo, hi)
             SYMTAB.syms[v.form.terms[0][0]].data = ('f2i', ex, a.cls if isinstance(a, VFloat) else None)
             return v
         if kind == 'FloatToFloat':
@@ -1108,6 +1194,23 @@ class Interp:
             c = self.cfg_cache[body['key']] = cfg_info(body)
         return c
 
+    def live(self, body):
+        k = ('live', body['key'])
+        c = self.cfg_cache.get(k)
+        if c is None:
+            succ, _ = self.cfg(body)
+            c = self.cfg_cache[k] = liveness(body, succ)
+        return c
+
+    def prune_dead(self, body, fid, st: State, bb):
+        """drop locals of the frame that are dead at the entry of bb (never read again before being written)"""
+        live_in, addr = self.live(body)
+        keep = live_in[bb]
+        fr = st.wframe(fid)
+        for l in list(fr):
+            if l not in keep and l not in addr:
+                del fr[l]
+
     def call_local(self, st: State, key: str, args: list):
         """analyse callee inline; returns list of (state, return value)"""
         for _, k in st.stack:
@@ -1135,6 +1238,7 @@ class Interp:
             s0 = st.copy()
             fid = s0.new_id()
             s0.frames[fid] = {i + 1: a for i, a in enumerate(args)}
+            s0.owned.add(fid)
             s0.stack = s0.stack + ((fid, key),)
             try:
                 rets, _, _ = self.explore(body, fid, [(s0, 0, True)], None)
@@ -1151,7 +1255,54 @@ class Interp:
             out.append((s, v2 if v2 is not None else v))
         if len(out) > self.max_states:
             self.max_states = len(out)
+        if st.stack and len(out) > self.spec.merge_limit(key):
+            out = self.merge_exits(out)
         return out
+
+    def shape(self, v):
+        if isinstance(v, VAdt):
+            return (v.ty, tuple((k, tuple(self.shape(f) for f in v.variants[k])) for k in sorted(v.variants)))
+        if isinstance(v, VBool):
+            return ('b', v.val)
+        if isinstance(v, VInt):
+            return 'i'
+        if isinstance(v, VTuple):
+            return tuple(self.shape(e) for e in v.elems)
+        if isinstance(v, VSlice):
+            return ('s', v.base, v.elem[0])
+        if isinstance(v, VRef):
+            return ('r', v.root[0])
+        if isinstance(v, VFloat):
+            return ('f', v.cls)
+        return type(v).__name__
+
+    def merge_exits(self, out):
+        """trace-partitioning bound: exit states of a callee with the same result shape are joined once
+        there are more than merge_k of them"""
+        groups = {}
+        order = []
+        for (s, v) in out:
+            try:
+                k = (self.shape(v), tuple(sorted(s.frames)), tuple(sorted((a, b) for a, b in s.notes.items() if isinstance(a, str))))
+            except TypeError:
+                k = id(s)
+            if k not in groups:
+                groups[k] = []
+                order.append(k)
+            groups[k].append((s, v))
+        res = []
+        for k in order:
+            g = groups[k]
+            if len(g) == 1:
+                res.append(g[0])
+                continue
+            js, jv = g[0]
+            for (s2, v2) in g[1:]:
+                j, _ = self.sjoin(js, s2)
+                jv = self.vjoin(j, jv, v2, js, s2)
+                js = j
+            res.append((js, jv))
+        return res
 
     def explore(self, body, fid, entries, loop):
         """explore paths from entries.  loop: None or (head, blocks) of the join-mode loop being iterated.
@@ -1225,6 +1376,7 @@ class Interp:
     def run_loop(self, body, fid, head, blocks, entry: State):
         """fixpoint over a loop with trace partitioning at the head (one invariant per flag signature)"""
         MAXP = 48
+        self.prune_dead(body, fid, entry, head)
         parts = {self.loop_sig(entry, fid): entry}
         dirty = list(parts)
         results = {}
@@ -1240,6 +1392,7 @@ class Interp:
             rets, backs, exits = self.explore(body, fid, [(inv.copy(), head, True)], (head, blocks))
             results[sg] = (rets, exits)
             for b in backs:
+                self.prune_dead(body, fid, b, head)
                 bs = self.loop_sig(b, fid)
                 if bs not in parts and len(parts) >= MAXP:
                     bs = next(iter(parts))      # too many partitions: fold into the first one
@@ -1264,7 +1417,7 @@ class Interp:
     def exec_block(self, body, fid, st: State, bbi):
         """returns list of (state, next_bb | None for return)"""
         self.steps += 1
-        if self.steps > self.step_budget:
+        if self.steps - self.steps_root > self.step_budget:
             raise AnalysisIncomplete("step budget exceeded")
         bb = body['blocks'][bbi]
         key = body['key']
@@ -1483,9 +1636,13 @@ class Interp:
         envty = body['locals'][1]['ty'] if body['argc'] >= 1 else ''
         if envty.startswith('&'):
             if env_ref is None:
-                oid = st.new_id()
-                st.objs[oid] = cl
-                env_ref = VRef(('obj', oid))
+                if all(isinstance(u, (VRef, VSlice, VFn)) for u in cl.upvars):
+                    # the environment itself is never mutated (captures are references): immutable temporary
+                    env_ref = VRef(('val', cl))
+                else:
+                    oid = st.new_id()
+                    st.objs[oid] = cl
+                    env_ref = VRef(('obj', oid))
             env = env_ref
         else:
             env = cl
@@ -1509,11 +1666,12 @@ class Interp:
                 self.spec.d2j_range = (lo, hi)
                 self.kernel_d2j = (args, res)
 
-    def run_root(self, key):
+    def run_root(self, key, variant=None):
         self.root = key
         self.events = []
+        self.steps_root = self.steps
         body = self.facts.body(key)
         st = State()
-        args = self.spec.root_args(self, st, key, body)
+        args = self.spec.root_args(self, st, key, body, variant)
         res = self.call_local(st, key, args)
         return st, args, res
